@@ -1,5 +1,5 @@
 /* C07 harness: restart from the last snapshot an archive exposes, advance, append (run under strace to
-   observe the write pattern).  usage: c07_append <archive> <nsteps>   |   c07_append --fresh <archive>  */
+   observe the write pattern).  usage: c07_append <archive> <nsteps> [add]   |   c07_append --fresh <archive>  */
 #include <stdio.h>
 #include <stdlib.h>
 #include <string.h>
@@ -18,6 +18,9 @@ int main(int argc, char** argv){
     }
     struct reb_simulation* r = reb_simulation_create_from_file(argv[1], -1);
     if (!r) return 3;
+    if (argc>3 && strcmp(argv[3],"add")==0){ /* change the size of the delta: one more particle */
+        reb_simulation_add_fmt(r, "m a", 1e-4, 3.1 + 0.1*r->N);
+    }
     reb_simulation_steps(r, atoi(argv[2]));
     reb_simulation_save_to_file(r, argv[1]);
     reb_simulation_free(r);
